@@ -43,7 +43,7 @@ class P(Prop):
     ID = "C10"
     MODULE = "C10"
     THEOREMS = ["C10_thr_values", "C10_form_series", "C10_form_closed", "C10_trunc", "C10_no_jump", "C10_at_one", "C10_series_accuracy_float", "C10_series_hypotheses_hold",
-                "C10_closed_accuracy_float", "C10_closed_form_exact", "C10_closed_hypotheses_hold"]
+                "C10_closed_accuracy_float", "C10_closed_form_exact", "C10_closed_hypotheses_hold", "C10_recip_accuracy"]
     KERNELS = [NAME, "taylor::exp_5_taylor", "taylor::exp_5_tail_taylor", "taylor::exp_5_tail_anal"]
     RULE = ("IntOfLogPoly4::evaluate (and the exponential-tail kernels on their own) run bit-exactly model vs crate with libm values "
             "shared through tables; arguments: every k-th float within 4096 ulps of v=1 and of the two switch points e^1.71, e^-1.72 "
